@@ -528,14 +528,16 @@ def corr_cases(rend, seed, nrep):
                 yield "vcg_real energy", sum(R["vcg_real_E"](float(a), float(b)) for a, b in zip(r, iv)), energy_value(I.energy, I.x)
                 yield "vcg_real transformation r", [R["vcg_real_t_r"](float(a), float(b)) for a, b in zip(r, iv)], tx["r"].asnumpy()
                 yield "vcg_real transformation i", [R["vcg_real_t_i"](float(b)) for b in iv], tx["i"].asnumpy()
-                yield "vcg_real metric", [R["vcg_real_M_r"](float(b)) for b in iv] + [R["vcg_real_M_i"](float(b)) for b in iv], np.diag(M)
+                byk = {"r": [R["vcg_real_M_r"](float(b)) for b in iv], "i": [R["vcg_real_M_i"](float(b)) for b in iv]}
+                yield "vcg_real metric", [v for k, _, _, _ in I.coords.slots for v in byk[k]], np.diag(M)
             else:
                 yield "vcg_cplx energy", sum(R["vcg_cplx_E"](float(a.real), float(a.imag), float(b)) for a, b in zip(r, iv)), energy_value(I.energy, I.x)
                 yield "vcg_cplx transformation re", [R["vcg_cplx_t_ra"](float(a.real), float(b)) for a, b in zip(r, iv)], tx["r"].asnumpy().real
                 yield "vcg_cplx transformation im", [R["vcg_cplx_t_rb"](float(a.imag), float(b)) for a, b in zip(r, iv)], tx["r"].asnumpy().imag
                 yield "vcg_cplx transformation i", [R["vcg_cplx_t_i"](float(b)) for b in iv], tx["i"].asnumpy()
                 mr = [R["vcg_cplx_M_r"](float(b)) for b in iv]
-                yield "vcg_cplx metric", [v for m_ in mr for v in (m_, m_)] + [R["vcg_cplx_M_i"](float(b)) for b in iv], np.diag(M)
+                byk = {"r": [v for m_ in mr for v in (m_, m_)], "i": [R["vcg_cplx_M_i"](float(b)) for b in iv]}
+                yield "vcg_cplx metric", [v for k, _, _, _ in I.coords.slots for v in byk[k]], np.diag(M)
         for kind in ("sgamma_real", "sgamma_cplx"):
             I = make(kind, s)
             r, x = I.params["r"], I.x.asnumpy()
